@@ -209,6 +209,9 @@ def run(chk, repo: Repo):
     # R5 (on the structural normal form with temporaries such as `n = self.domain_dim` substituted; the buffer and index names are read off)
     gm4 = canon_fn(repo, lm, gm, 4)
     loops = [n for n in ast.walk(gm4) if isinstance(n, ast.For)]
+    if not loops:
+        gm4 = canon_fn(repo, lm, gm, 3)             # the assembly loop lives in a private helper: inlined (and substituted) view
+        loops = [n for n in ast.walk(gm4) if isinstance(n, ast.For)]
     problems = []
     adj_calls = [c for c in ast.walk(gm) if isinstance(c, ast.Call) and call_name(c) in ("self.adjoint", "self._adjoint_func")]
     if adj_calls:
